@@ -46,6 +46,7 @@ class FlowMixin:
         label = self.loop_label(st, stmt, kind)
         invs = self.loop_invs(st, label)
         results = []
+        st.labels["loop_entry"] = st.snap()
         st0 = st.copy()
 
         # invariant must hold on entry
@@ -495,6 +496,25 @@ class FlowMixin:
             raise Unsupported("suspension inside specification")
         c = self.cur_contract
         st.note("suspend")
+        if c is not None and (c.ghost_suspend or c.ghost_resume):
+            states = [st]
+            for g in c.ghost_suspend:
+                states = [s2 for s in states for s2 in self.run_ghost(g, s)]
+            outs = []
+            for s in states:
+                for o, s2 in self.suspend2(s, k):
+                    if c.ghost_resume:
+                        ss = [s2]
+                        for g in c.ghost_resume:
+                            ss = [s4 for s3 in ss for s4 in self.run_ghost(g, s3)]
+                        outs.extend((o, s5) for s5 in ss)
+                    else:
+                        outs.append((o, s2))
+            return outs
+        return self.suspend2(st, k)
+
+    def suspend2(self, st, k):
+        c = self.cur_contract
         self.at_suspension(st)
         pre = st.snap()
         me = self.me_term(st)
@@ -528,8 +548,17 @@ class FlowMixin:
         s2.assume(ge != NULL)
         s2.assume(cls_of(ge) == cls_const("GeneratorExit"))
         s2.note("resume[GeneratorExit]")
+        self.assume_close_protocol(s2, z3.BoolVal(True))
         outs.append((Outcome("X", Val(REF("GeneratorExit"), ge)), s2))
         return outs
+
+    def assume_close_protocol(self, st, cond):
+        c = self.cur_contract
+        if c is None:
+            return
+        for cl in c.assume_on_close:
+            self.assumptions_used.add("%s: when GeneratorExit arrives: %s" % (c.fqn, cl))
+            st.assume(z3.Implies(cond, self.eval_clause(cl, st)))
 
     def is_new_obj_after(self, st, e):
         return z3.BoolVal(False)
@@ -658,6 +687,7 @@ class FlowMixin:
     def opaque_await(self, v, st, k):
         """await on user supplied awaitable: any number of suspensions, any result, any exception"""
         st.note("await <user code>")
+        st.user_awaits += 1
         self.at_suspension(st)
         pre = st.snap()
         old_time = self.loop_field(st, "time")
@@ -678,6 +708,15 @@ class FlowMixin:
         s2.assume(e != NULL)
         s2.assume(subclass(cls_of(e), cls_const("BaseException")))
         s2.note("user:raise")
+        self.assume_close_protocol(s2, subclass(cls_of(e), cls_const("GeneratorExit")))
+        # an Interrupt-family exception coming out of user code is a kernel signal that was delivered to this activity
+        # (valid programs do not construct or raise the kernel's internal signals themselves)
+        self.assumptions_used.add("user code raises no instances of the kernel's Interrupt classes on its own; "
+                                  "such an exception leaving awaited user code is a signal delivered to this activity")
+        sigv = Val(REF("Interrupt"), e)
+        s2.assume(z3.Implies(subclass(cls_of(e), cls_const("Interrupt")),
+                             self.eval_clause("sig.scheduled and not sig._revoked and sig.target is me and loop.activity is me",
+                                              s2, extra={"sig": sigv, "me": Val(ANY, self.me_const)})))
         outs.append((Outcome("X", Val(REF("BaseException"), e)), s2))
         return outs
 
